@@ -111,48 +111,99 @@ Qed.
 
 (* ================= Q2.v ================= *)
 
-(* ---------- witnesses (replayed on the real code by props/C11/check.py) ---------- *)
-Definition w_wait_returns_unnotified : N * list (list nop) * sschedule :=
-  (0, [[NWait]; [NWait]], [(0,0);(0,0);(0,0);(0,0);(1,0);(1,0);(1,0);(1,0)]%nat).
-Definition w_sema_parks_with_count_positive : N * list (list sop) * sschedule :=
-  (1, [[SAcq]; [SRel; SAcq]], [(0,0);(1,0);(0,0);(0,0);(1,0);(1,0);(0,0);(0,0);(1,0);(1,0);(0,0)]%nat).
-
 Definition n_quiescent (s : nstate) : Prop :=
   forall t th, nth_error (n_ths s) t = Some th -> n_enabled s t th = false.
 Definition s_quiescent (s : sstate) : Prop :=
   forall t th, nth_error (s_ths s) t = Some th -> s_enabled s t th = false.
 
-(* F7: two waiters, nobody ever notifies.  The second one (ticket 1) completes its
-   notifyListWait although l.notify is still 0 - Go's criterion less32 t notify is false. *)
-Lemma f7_wait_returns :
-  let s := n_run [(0,0);(0,0);(0,0);(0,0);(1,0);(1,0);(1,0);(1,0)]%nat (n_init 0 [[NWait]; [NWait]]) in
-  n_notify s = 0 /\ n_wrapped s = false /\
-  exists th, nth_error (n_ths s) 1 = Some th /\ nprog th = [] /\ n_done th = 1%nat /\
-             n_tickets th = [1] /\ less32 1 (n_notify s) = false.
-Proof. vm_compute. repeat split. eexists; repeat split. Qed.
-
-(* lost wake-up of semaAcquire: nobody can run, thread 0 sleeps in cond.Wait inside
-   semaAcquire, the count is 1 *)
-Lemma sema_parks_positive :
-  let s := s_run [(0,0);(1,0);(0,0);(0,0);(1,0);(1,0);(0,0);(0,0);(1,0);(1,0);(0,0)]%nat
-                 (s_init 1 [[SAcq]; [SRel; SAcq]]) in
-  s_quiescent s /\ s_val s = 1 /\ s_parked s 0 = true /\
-  exists th, nth_error (s_ths s) 0 = Some th /\ sprog th = [SAcq] /\ s_pc th = QW.
+(* ---------- semaAcquire goes to sleep only after reading 0 under the mutex ---------- *)
+Lemma mem_remove_nat t x q : mem_nat t (remove_nat x q) = true -> mem_nat t q = true.
 Proof.
-  vm_compute. repeat split.
-  - intros [|[|[|t]]] th H; cbn in H; try discriminate; injection H as <-; reflexivity.
-  - eexists; repeat split.
+  unfold mem_nat. induction q as [|y q IH]; cbn; auto.
+  destruct (Nat.eqb y x); cbn.
+  - intros ->. now rewrite orb_true_r.
+  - destruct (Nat.eqb t y); cbn; auto.
 Qed.
 
-(* ---------- one-step facts about NotifyAll and a woken waiter (any state) ---------- *)
-Lemma notify_all_bcast_empties s t c th rest :
-  nth_error (n_ths s) t = Some th -> nprog th = NAll :: rest -> n_pc th = MA3 ->
+Lemma sema_parks_on_zero s t c s' :
+  s_step s (t, c) = Some s' -> s_parked s t = false -> s_parked s' t = true ->
+  s_val s = 0.
+Proof.
+  unfold s_step. destruct (nth_error (s_ths s) t) as [th|] eqn:E; [|discriminate].
+  destruct (sprog th) as [|o rest] eqn:Ep; [discriminate|].
+  intros H Hp. rewrite Hp in H.
+  unfold s_enabled in H. rewrite Ep, Hp in H. cbn [negb andb] in H.
+  destruct o, (s_pc th) eqn:Epc; cbn in H;
+    try (destruct (free (s_mu s)); [|discriminate]);
+    injection H as <-; unfold s_exec; rewrite Epc; unfold s_parked, s_set, s_park; cbn [s_waitq];
+    repeat match goal with |- context [if ?b then _ else _] => destruct b eqn:? end;
+    cbn [s_waitq]; unfold s_parked in Hp; try congruence.
+  all: try (intros Hq; apply mem_remove_nat in Hq; congruence).
+  (* the only step that joins the wait queue: Load under the mutex returned 0 *)
+  all: intros _; now apply N.eqb_eq.
+Qed.
+
+(* ---------- notifyListWait returns only when its ticket has been notified ---------- *)
+Definition rets_ok (th : nthread) : Prop :=
+  Forall (fun p => less32 (fst p) (snd p) = true) (n_rets th).
+
+Lemma n_step_inv s t c s' :
+  n_step s (t, c) = Some s' ->
+  exists th o rest, nth_error (n_ths s) t = Some th /\ nprog th = o :: rest /\
+    (n_ths s' = n_ths s \/ s' = n_exec s t c th o rest).
+Proof.
+  unfold n_step. destruct (nth_error (n_ths s) t) as [th|] eqn:E; [|discriminate].
+  destruct (nprog th) as [|o rest] eqn:Ep; [discriminate|].
+  destruct (n_parked s t).
+  - intros [= <-]. exists th, o, rest. auto.
+  - destruct (n_enabled s t th); [|discriminate]. intros [= <-]. exists th, o, rest. auto.
+Qed.
+
+Lemma rets_exec s t c th o rest :
+  Forall rets_ok (n_ths s) -> nth_error (n_ths s) t = Some th ->
+  Forall rets_ok (n_ths (n_exec s t c th o rest)).
+Proof.
+  intros HF Et. pose proof (Forall_nth_error _ _ _ _ HF Et) as Hth. unfold rets_ok in Hth.
+  unfold n_exec.
+  destruct o, (n_pc th) eqn:Epc; try exact HF; unfold n_set; cbn [n_ths];
+    repeat match goal with |- context [if ?b then _ else _] => destruct b eqn:? end;
+    cbn [n_ths]; try (apply Forall_upd; auto; exact Hth).
+  (* the wait returns: the loop condition was false, i.e. less32 ticket notify *)
+  apply Forall_upd; auto. unfold rets_ok, nfin_wait; cbn [n_rets].
+  apply Forall_app. split; auto. constructor; auto. cbn.
+  now apply negb_false_iff.
+Qed.
+
+Lemma rets_run sc : forall s, Forall rets_ok (n_ths s) -> Forall rets_ok (n_ths (n_run sc s)).
+Proof.
+  induction sc as [|[t c] sc IH]; intros s H; cbn [n_run]; auto.
+  destruct (n_step s (t, c)) as [s'|] eqn:E; auto. apply IH.
+  apply n_step_inv in E as (th & o & rest & Et & Ep & [->| ->]); auto.
+  now apply rets_exec.
+Qed.
+
+Lemma wait_returns_notified v0 progs sc t th tk nt :
+  nth_error (n_ths (n_run sc (n_init v0 progs))) t = Some th ->
+  In (tk, nt) (n_rets th) -> less32 tk nt = true.
+Proof.
+  intros Et Hin.
+  assert (H : Forall rets_ok (n_ths (n_run sc (n_init v0 progs)))).
+  { apply rets_run. apply Forall_forall. intros x Hx. apply in_map_iff in Hx as (p & <- & _). constructor. }
+  pose proof (Forall_nth_error _ _ _ _ H Et) as Hth. unfold rets_ok in Hth.
+  rewrite Forall_forall in Hth. exact (Hth _ Hin).
+Qed.
+
+(* ---------- one-step facts about the notifiers and a woken waiter (any state) ---------- *)
+Lemma notifier_bcast_empties s t c th o rest :
+  nth_error (n_ths s) t = Some th -> nprog th = o :: rest ->
+  (o = NAll /\ n_pc th = MA3) \/ (o = NOne /\ n_pc th = MA4) ->
   n_parked s t = false ->
   exists s', n_step s (t, c) = Some s' /\ n_waitq s' = [] /\ n_mu s' = None.
 Proof.
-  intros Et Ep Epc Epk. unfold n_step. rewrite Et, Ep, Epk.
-  unfold n_enabled. rewrite Ep, Epk, Epc. cbn. eexists; split; [reflexivity|].
-  unfold n_exec. rewrite Epc. cbn. auto.
+  intros Et Ep H Epk. unfold n_step. rewrite Et, Ep, Epk.
+  unfold n_enabled. rewrite Ep, Epk.
+  destruct H as [(-> & Epc)|(-> & Epc)]; rewrite Epc; cbn; (eexists; split; [reflexivity|]);
+    unfold n_exec; rewrite Epc; cbn; auto.
 Qed.
 
 Lemma length_upd {A} (l : list A) i x : length (upd l i x) = length l.
@@ -161,15 +212,16 @@ Proof. revert i; induction l; destruct i; cbn; auto. Qed.
 Lemma nth_error_upd_same {A} (l : list A) i x : (i < length l)%nat -> nth_error (upd l i x) i = Some x.
 Proof. revert i; induction l; destruct i; cbn; intros; try lia; auto. apply IHl. lia. Qed.
 
-(* a woken waiter that gets the mutex returns, unless the notify counter equals its ticket *)
+(* a woken waiter that gets the mutex returns iff its ticket is below l.notify;
+   otherwise it parks again *)
 Lemma woken_waiter_returns s t c c' th rest :
   nth_error (n_ths s) t = Some th -> nprog th = NWait :: rest -> n_pc th = MW ->
   n_parked s t = false -> n_mu s = None ->
   exists s1 s2 th2, n_step s (t, c) = Some s1 /\ n_step s1 (t, c') = Some s2 /\
     nth_error (n_ths s2) t = Some th2 /\
-    (if n_notify s =? n_ticket th
-     then n_parked s2 t = true /\ n_pc th2 = MW
-     else nprog th2 = rest /\ n_done th2 = S (n_done th)).
+    (if less32 (n_ticket th) (n_notify s)
+     then nprog th2 = rest /\ n_done th2 = S (n_done th)
+     else n_parked s2 t = true /\ n_pc th2 = MW).
 Proof.
   intros Et Ep Epc Epk Emu.
   assert (Hlt : (t < length (n_ths s))%nat) by (apply nth_error_Some; congruence).
@@ -183,16 +235,28 @@ Proof.
   { unfold n_step. rewrite E1. cbn [nprog ngoto]. rewrite Ep, P1.
     unfold n_enabled. cbn [nprog ngoto n_pc]. rewrite Ep, P1. reflexivity. }
   assert (HX : n_exec s1 t c' (ngoto th MC) NWait rest =
-               if n_notify s =? n_ticket th
+               if negb (less32 (n_ticket th) (n_notify s))
                then mkNSt (n_wait s) (n_notify s) None (n_waitq s ++ [t]) (upd (n_ths s1) t (ngoto (ngoto th MC) MW)) (n_wrapped s)
-               else n_set s1 t (nfin (ngoto th MC) rest) None) by reflexivity.
+               else n_set s1 t (nfin_wait (ngoto th MC) rest (n_notify s)) None) by reflexivity.
   rewrite HX in S2. clear HX.
-  destruct (n_notify s =? n_ticket th) eqn:E.
+  destruct (less32 (n_ticket th) (n_notify s)) eqn:E; cbn [negb] in S2.
+  - exists s1. eexists. eexists. split; [exact S1|]. split; [exact S2|]. cbn [n_ths n_set]. split.
+    + apply nth_error_upd_same. unfold s1. cbn [n_ths n_set]. rewrite length_upd. auto.
+    + cbn. auto.
   - exists s1. eexists. eexists. split; [exact S1|]. split; [exact S2|]. cbn [n_ths]. split.
     + apply nth_error_upd_same. unfold s1. cbn [n_ths n_set]. rewrite length_upd. auto.
     + split; [|reflexivity]. unfold n_parked. cbn [n_waitq].
       unfold mem_nat. rewrite existsb_app. cbn. rewrite Nat.eqb_refl. now rewrite orb_true_r.
-  - exists s1. eexists. eexists. split; [exact S1|]. split; [exact S2|]. cbn [n_ths n_set]. split.
-    + apply nth_error_upd_same. unfold s1. cbn [n_ths n_set]. rewrite length_upd. auto.
-    + cbn. auto.
 Qed.
+
+(* the former witnesses, now harmless *)
+Lemma former_f7_schedule_parks_both :
+  let s := n_run [(0,0);(0,0);(0,0);(0,0);(1,0);(1,0);(1,0);(1,0)]%nat (n_init 0 [[NWait]; [NWait]]) in
+  n_waitq s = [0; 1]%nat /\ map n_done (n_ths s) = [0; 0]%nat.
+Proof. vm_compute. auto. Qed.
+
+Lemma former_sema_schedule_completes :
+  let s := s_run [(0,0);(1,0);(0,0);(0,0);(1,0);(1,0);(0,0);(0,0);(1,0);(1,0);(0,0);(0,0);(0,0)]%nat
+                 (s_init 1 [[SAcq]; [SRel; SAcq]]) in
+  map s_done (s_ths s) = [1; 2]%nat /\ s_val s = 0 /\ s_waitq s = [].
+Proof. vm_compute. auto. Qed.
